@@ -234,6 +234,9 @@ def setCfg (st : St) (kv : String) : Option St :=
     | "ttl.overflowGuard" => b fun x => { st.c with ttlOverflowGuard := x }
     | "commit.minCommitOp" => o fun x => { st.c with minCommitOp := x }
     | "prewrite.keepsOwnLock" => b fun x => { st.c with prewriteKeepsOwnLock := x }
+    -- latch discipline: the model composes handlers as atomic steps whatever the value; a value
+    -- other than "none" is a deviation of the fact itself (reported by the check)
+    | "latch.readsBeforeAcquire" => some st
     | _ => none
   | _ => none
 
@@ -412,6 +415,36 @@ def step (st : St) (toks : List String) : St × String :=
         | none => spec19
       (st, out ++ "\t" ++ spec)
     | none => (st, "bad-op")
+  -- Commit and CheckTxnStatus of the same primary queued on the key's latch in the given order
+  -- ("cm-cs" / "cs-cm"); both are atomic steps under the latch, so the outcome is their sequential
+  -- composition in grant order.  Only what does not depend on that order is printed (the caller ts
+  -- is chosen so that a pushed min-commit ts does not refuse the commit); the state is observed by
+  -- the following `lock` / `dump` ops.
+  | ["race", key, start, ct, cur, caller, order] =>
+    match bytesOf? key, natOf? start, natOf? ct, natOf? cur, natOf? caller with
+    | some k, some start, some ct, some cur, some caller =>
+      let q : CsReq := ⟨k, start, cur, false, caller⟩
+      let doCm := fun (st : St) =>
+        let r := commit st.c start ct st.s [k]
+        (st.withLs (applyPhys st.c st.lc st.ls r.1 [k]), r.2)
+      let doCs := fun (st : St) =>
+        let r := checkTxnStatus st.c q st.s
+        (st.withLs (applyPhys st.c st.lc st.ls r.1 [k]), r.2.err)
+      let st := markOutside st start ct [k]
+      let st := { st with keepLock := st.keepLock.filter (fun (p : Bytes × String) => p.1 ≠ k) }
+      let (st, cmErr, csErr) :=
+        if order == "cs-cm" then
+          let (st1, e2) := doCs st
+          let (st2, e1) := doCm st1
+          (st2, e1, e2)
+        else
+          let (st1, e1) := doCm st
+          let (st2, e2) := doCs st1
+          (st2, e1, e2)
+      let st := addKeys st [k]
+      let st := setGhost st k (if cmErr.isNone then .free else .unknown)
+      (st, s!"race:cm={optErrStr cmErr}:cs={if csErr.isSome then "err" else "ok"}" ++ "\t*")
+    | _, _, _, _, _ => (st, "bad-op")
   | ["dump"] => (st, dumpStr st ++ "\t*")
   -- maintenance (same reply format as the lsm engine's driver)
   | ["rotate"] => let s := Lsm.rotate st.ls; ({ st with ls := s }, "ok " ++ shapeStr s ++ "\t*")
